@@ -268,3 +268,176 @@ def run(ctx):
     ctx.stat(RULE, sibling_red_sites=n_sites)
     if n_sites < 3:
         ctx.anchor_missing(RULE, 'sites of the removal repair that paint the examined node\'s sibling red (one per tree copy)', PROPS, n_sites, 3)
+    run_redred(ctx)
+
+
+# ---- REDRED: the insert repair's recolouring pushes a red node up; the repair must follow it ---------------------------------------
+def run_redred(ctx):
+    """In the insert repair, the red-uncle case paints the grandparent red.  The grandparent's own parent may be red too: unless it
+    is tested and found absent or black, the repair must continue with the grandparent as the new red node (recursive call or the
+    next round of a loop).  A path from that store to a return that does neither leaves two red nodes in a row (C02)."""
+    prog = ctx.prog
+    from rules.gate import edge_truth
+    n_sites = 0
+    for tree in sorted(prog.tree_adts):
+        rt = red_truth(prog, tree)
+        fns = [f for f in prog.fns.values() if f.self_adt == tree and not f.is_closure and f.info.get('mir')]
+        cands = {}
+        for f in fns:
+            b = f.body
+            for st in b.stores:
+                acc = prog.accessor_call(strip(st.root))
+                if acc is None or st.fields() != ('color',) or colour_name(prog, f, st.value) != 'Red':
+                    continue
+                g = strip(acc[2])
+                # G = node(P).parent with P a parameter (or a loop cursor started from one) whose own colour is set Black
+                nf = prog.node_field(g) if g.kind == 'load' else None
+                if nf is None or nf[1] != ('parent',):
+                    continue
+                pv = strip(nf[0])
+                if pv.kind not in ('param', 'phi'):
+                    continue
+                blackened = any(prog.accessor_call(strip(s2.root)) is not None and s2.fields() == ('color',) and colour_name(prog, f, s2.value) == 'Black'
+                                and strip(prog.accessor_call(strip(s2.root))[2]) is pv and b.cfg.dominates(s2.point[0], st.point[0]) for s2 in b.stores)
+                if not blackened:
+                    continue
+                cands.setdefault(f.path, []).append((st, g, pv))
+        for f in fns:
+            for st, g, pv in cands.get(f.path, []):
+                n_sites += 1
+                b = f.body
+                cfg = b.cfg
+                line = span_line(st, f.line)
+
+                def is_gg(v):
+                    return parent_of(prog, v, g) or (strip(v).kind == 'load' and prog.node_field(strip(v)) is not None and prog.node_field(strip(v))[1] == ('parent',)
+                                                     and same_load(prog, strip(prog.node_field(strip(v))[0]), g))
+                site_blocks = {}
+                for c in b.calls:
+                    tgt = prog.resolve(c)
+                    if tgt is not None and tgt.path in cands and any(same_load(prog, strip(a), g) for a in c.args[1:]):
+                        site_blocks[c.point[0]] = 'repair continued with the grandparent (%s)' % tgt.name
+                if pv.kind == 'phi' and pv.extra.get('block') in cfg.loops():
+                    h = pv.extra['block']
+                    for a, p_ in zip(pv.args, pv.extra['preds']):
+                        if p_ in cfg.loops()[h] and is_gg(a):
+                            site_blocks[p_] = 'next round of the loop continues above the grandparent'
+                # handed back: a step function returns the pair to continue with to a caller that loops on it
+                todo_, seen_ = [strip(x) for x in b_ret_vals(b)], set()
+                while todo_:
+                    x_ = todo_.pop()
+                    if x_ is None or x_.id in seen_:
+                        continue
+                    seen_.add(x_.id)
+                    if x_.kind == 'phi':
+                        todo_.extend(strip(y_) for y_ in x_.args)
+                    elif x_.kind == 'agg' and x_.point is not None and any(same_load(prog, z, g) for z in walk(x_) if z.kind == 'load'):
+                        site_blocks[x_.point[0]] = 'returned to the driving loop as the pair to continue with'
+                justified = set()      # edges that establish "the grandparent has no red parent"
+                precise = set()
+                for s0, d0 in b.switch_discr.items():
+                    d = strip(d0)
+                    t = b.mir['blocks'][s0]['term']
+                    for succ in set(cfg.succ[s0]):
+                        tr = edge_truth(t, succ)
+                        if d.kind == 'bin' and d.args[0] in ('Eq', 'Ne') and tr is not None:
+                            x, y = strip(d.args[1]), strip(d.args[2])
+                            for p, q in ((x, y), (y, x)):
+                                if prog.is_empty_ref(q) and is_gg(p):
+                                    precise.add(s0)
+                                    if tr if d.args[0] == 'Eq' else not tr:
+                                        justified.add((s0, succ))
+                                if prog.is_empty_ref(q) is False and False:
+                                    pass
+                        # colour test of node(gg): the not-red side
+                        col = None
+                        for z in walk(d):
+                            if z.kind in ('load', 'ref') and z.fields() == ('color',) and prog.accessor_call(strip(z.args[0])) is not None and is_gg(prog.accessor_call(strip(z.args[0]))[2]):
+                                col = z
+                        if col is not None:
+                            import gef as G
+                            ge = G.Gef(prog, f)
+                            if tr is not None:
+                                txt, tv = ge.cond(d0, tr)
+                            else:
+                                vals = [tv_ for tv_, tb_ in t['targets'] if tb_ == succ]
+                                txt, tv = ge.term(d0), (vals[0] == 1 if vals and vals[0] in (0, 1) else None)
+                            if txt.startswith('discr(') and tv is not None:
+                                precise.add(s0)
+                                if tv != rt:
+                                    justified.add((s0, succ))
+                # any other test that looks at the great-grandparent (through a predicate helper: `!is_black(gg)`, `color_of(gg) ==
+                # Some(Red)`): the side that does not lead to the continuation is taken as "no red parent".  (Which side is which
+                # is the sibling / mirror comparison's business; what this clause adds is that the continuation exists and is
+                # skipped only on the strength of such a test.)
+                if site_blocks:
+                    reach_site = set()
+                    for sb_ in site_blocks:
+                        reach_site |= cfg.can_reach([sb_]) if hasattr(cfg, 'can_reach') else set()
+                    for s0, d0 in b.switch_discr.items():
+                        if s0 in precise or not any(is_gg(z) for z in walk(d0) if z.kind in ('load', 'phi', 'param', 'call')):
+                            continue
+                        for succ in set(cfg.succ[s0]):
+                            if succ not in reach_site and succ not in site_blocks:
+                                justified.add((s0, succ))
+                # g is the root: `g == root` / root test on g
+                for s0, d0 in b.switch_discr.items():
+                    d = strip(d0)
+                    t = b.mir['blocks'][s0]['term']
+                    if d.kind == 'bin' and d.args[0] in ('Eq', 'Ne'):
+                        x, y = strip(d.args[1]), strip(d.args[2])
+                        for p, q in ((x, y), (y, x)):
+                            if q.kind == 'load' and prog.self_field(q) == ('root',) and same_load(prog, p, g):
+                                for succ in set(cfg.succ[s0]):
+                                    tr = edge_truth(t, succ)
+                                    if tr is not None and (tr if d.args[0] == 'Eq' else not tr):
+                                        justified.add((s0, succ))
+                # search: from the store, can a return be reached without a site block and without a justified edge?
+                bad = None
+                seen = set()
+                stack = [st.point[0]]
+                if st.point[0] in site_blocks and any(c.point[0] == st.point[0] and c.point > st.point for c in b.calls):
+                    stack = []
+                while stack and bad is None:
+                    x = stack.pop()
+                    if x in seen:
+                        continue
+                    seen.add(x)
+                    if x in cfg.returns and x != st.point[0] or (x in cfg.returns and not cfg.succ[x]):
+                        if x not in site_blocks:
+                            bad = x
+                            break
+                    for s2 in cfg.succ[x]:
+                        if s2 not in cfg.can_return:
+                            continue
+                        if (x, s2) in justified:
+                            continue
+                        if s2 in site_blocks:
+                            continue
+                        stack.append(s2)
+                sig = 'grandparent-red(%s)' % b.local_name(pv.args[0] if pv.kind == 'param' else pv.extra.get('local', 0))
+                if bad is None:
+                    ctx.add('REDRED', f, sig, 'ok', 'after the grandparent is painted red, every path either finds that it has no parent / a black parent / is the root, or continues the repair with it', ['C02'], line,
+                            {'sites': {str(k): v for k, v in site_blocks.items()}, 'justified_edges': sorted(map(str, justified))})
+                else:
+                    ctx.add('REDRED', f, sig, 'violation',
+                            'the grandparent is painted red, but a path to the end of %s neither establishes that its own parent is absent or black nor continues the repair with the grandparent: a red node can be left with a red parent' % f.name,
+                            ['C02'], line, {'sites': {str(k): v for k, v in site_blocks.items()}, 'uncovered_return_block': bad})
+    ctx.stat('REDRED', grandparent_red_sites=n_sites)
+    if n_sites < 3:
+        ctx.anchor_missing('REDRED', 'sites of the insert repair that paint the grandparent red (one per tree copy)', ['C02'], n_sites, 3)
+
+
+def b_ret_vals(b):
+    return list(b.ret_val.values())
+
+
+def same_load(prog, a, b2):
+    """a and b2 are the same value, or loads of the same field of the same arena element"""
+    a, b2 = strip(a), strip(b2)
+    if a is b2:
+        return True
+    if a is None or b2 is None or a.kind != 'load' or b2.kind != 'load':
+        return False
+    na, nb = prog.node_field(a), prog.node_field(b2)
+    return na is not None and nb is not None and na[1] == nb[1] and (strip(na[0]) is strip(nb[0]) or same_load(prog, na[0], nb[0]))
